@@ -200,6 +200,8 @@ fn state_string(dt: &DrawTarget) -> String {
     let (cb, cm) = dt.verif_clip();
     s += &format!(" C {} {} {} {} {}", cb.min.x, cb.min.y, cb.max.x, cb.max.y,
         match cm { Some(m) => format!("{}", mask_hash(m)), None => "none".to_string() });
+    let t = dt.get_transform();
+    s += &format!(" T {} {} {} {} {} {}", t.m11.to_bits(), t.m12.to_bits(), t.m21.to_bits(), t.m22.to_bits(), t.m31.to_bits(), t.m32.to_bits());
     s += if dt.verif_rasterizer_idle() { " idle" } else { " busy" };
     s
 }
@@ -234,8 +236,13 @@ pub fn run(t: &[&str], aug: bool) -> String {
             out += " ;";
             match kind {
                 "xf" => { let xf = c.xf(); dt.set_transform(&xf); for k in start..c.i { out.push(' '); out.push_str(t[k]); } }
-                "fill" | "clippath" => {
+                "fill" | "clippath" | "tfill" => {
                     let p = parse_path(&mut c);
+                    if kind == "tfill" {
+                        // the cubics of the pre-transformed path are approximated under the identity
+                        let tp = p.clone().transform(dt.get_transform());
+                        let _ = tp;
+                    }
                     out += &format!(" {} {}", kind, fmt_path(&p, dt.get_transform()));
                     copy_rest(&mut c, &mut out);
                 }
@@ -268,6 +275,14 @@ pub fn run(t: &[&str], aug: bool) -> String {
                 "layer" => { let o = c.f(); let m = MODES[c.int() as usize]; dt.push_layer_with_blend(o, m); }
                 "poplayer" => dt.pop_layer(),
                 "fill" => { let p = parse_path(&mut c); let s = parse_source(&mut c); let o = parse_opts(&mut c); s.with(|s| dt.fill(&p, s, &o)); }
+                "tfill" => {
+                    let p = parse_path(&mut c); let s = parse_source(&mut c); let o = parse_opts(&mut c);
+                    let ctm = *dt.get_transform();
+                    let tp = p.transform(&ctm);
+                    dt.set_transform(&Transform::identity());
+                    s.with(|s| dt.fill(&tp, s, &o));
+                    dt.set_transform(&ctm);
+                }
                 "stroke" => {
                     let p = parse_path(&mut c); let st = parse_style(&mut c);
                     assert_eq!(c.next(), "SRC");
